@@ -301,3 +301,7 @@ func BE64(b []byte) uint64 {
 
 // GuardAlt: like Guard/GuardObj, but every writer also holds the plain mutex alt, so reads under alt alone are race-free.
 func GuardAlt(x interface{}, mu interface{}, alt interface{}, what string) {}
+
+// Settle (engine-only, with flag "go-threads"): lets the goroutines started by the code under test run
+// until each of them is blocked on a channel operation or has finished.
+func Settle() {}
